@@ -248,6 +248,40 @@ UndoAll(d, ims) ==
 \* statement although no row is dirty.  Both readings are accepted.
 Mixed(r) == \E x \in r.marks, y \in r.marks : x[1] = y[1] /\ x[2] = "ok" /\ y[2] = "skip"
 
+(***************************************************************************)
+(* C10: the rollback of branch b = nbr+1 and the end of its phase one      *)
+(* interleave statement by statement (a database without gap locks: READ   *)
+(* COMMITTED).  The rollback transaction reads undo_log and finds no log;  *)
+(* phase one flushes its undo log and commits; only then does the rollback *)
+(* write its marker, which fails on the unique key.  Now the rows ARE      *)
+(* committed and the log IS there: this delivery either refuses (changes   *)
+(* nothing; a later delivery finds the log and compensates) or notices and *)
+(* compensates itself.  It never answers 'rollbacked' beside an unapplied  *)
+(* log.  (Three statement-level steps of two transactions composed into    *)
+(* one action: their order is fixed by the scenario.)                      *)
+(***************************************************************************)
+P1Raced(stmts, status) ==
+  /\ AllowEarly /\ phase = "p1" /\ nbr < MaxBranches
+  /\ LegalStmts(db, stmts)
+  /\ RunStmts(db, stmts).img # <<>>
+  /\ LET r == RunStmts(db, stmts)
+         b == nbr + 1
+     IN /\ imgs' = [imgs EXCEPT ![b] = r.img]
+        /\ nbr' = b
+        /\ last' = [op |-> "p1race", b |-> b, status |-> status]
+        /\ env' = Append(env, [op |-> "p1race", stmts |-> stmts])
+        /\ IF status = "rollbacked"
+           THEN LET u == UndoAll(r.d, r.img) IN
+                /\ u.res = "ok"
+                /\ db' = u.d
+                /\ \E m \in {"none", "marker"} : undo' = [undo EXCEPT ![b] = m]
+                /\ rolled' = [rolled EXCEPT ![b] = 1]
+                /\ tried' = [tried EXCEPT ![b] = 1]
+           ELSE /\ db' = r.d
+                /\ undo' = [undo EXCEPT ![b] = "normal"]
+                /\ UNCHANGED <<rolled, tried>>
+  /\ UNCHANGED <<snap0, foreign, phase, next>>
+
 \* One delivery of BranchRollback(b).  fired: the injected database fault hit a statement of the
 \* rollback transaction (observed by the harness).  status: what the coordinator was told.
 Deliver(b, fail, fired, status) ==
@@ -300,6 +334,7 @@ GiveUp ==
 Next ==
   \/ \E n \in 1..MaxStmts : \E stmts \in [1..n -> Stmt] : \E uw \in BOOLEAN, reg \in BOOLEAN : P1(stmts, uw, reg)
   \/ \E n \in 1..MaxStmts : \E stmts \in [1..n -> Stmt] : P1Overtaken(stmts)
+  \/ \E n \in 1..MaxStmts : \E stmts \in [1..n -> Stmt] : P1Raced(stmts, "failed")
   \/ \E k \in Keys : P1Rejected(k)
   \/ \E k \in Keys, r \in Rows : Foreign(k, r)
   \/ StartRollback
